@@ -401,6 +401,62 @@ fn content(d: &dyn Dialect, sql: &str, unescape: bool, trailing: bool) -> Value 
     r
 }
 
+// ------------------------------------------------------------------ neutralised literals
+/// The text with the payload of every string literal / quoted identifier made benign (the
+/// characters that the literal printers mishandle -- quotes, backslash, dollar, brackets, control
+/// characters -- replaced by `_`), keeping kinds, delimiters and everything else.  Used to decide
+/// whether a failure is CAUSED by a literal of a known class: if the neutralised text passes, it is.
+fn neutralise(d: &dyn Dialect, sql: &str, unescape: bool) -> Option<String> {
+    let toks = tokenize_loc(d, sql, unescape).ok()?;
+    let offs = token_offsets(sql, &toks);
+    let chars: Vec<char> = sql.chars().collect();
+    let mut out = String::new();
+    let mut changed = false;
+    for (i, t) in toks.iter().enumerate() {
+        if offs[i] == usize::MAX || offs[i + 1] == usize::MAX || offs[i] > offs[i + 1] || offs[i + 1] > chars.len() {
+            return None;
+        }
+        let src: String = chars[offs[i]..offs[i + 1]].iter().collect();
+        let is_lit = match &t.token {
+            Token::Word(w) => w.quote_style.is_some(),
+            Token::DollarQuotedString(_) => true,
+            other => tok_json(other)["k"] == "Str",
+        };
+        if !is_lit || src.chars().count() < 2 {
+            out.push_str(&src);
+            continue;
+        }
+        // keep the opening and closing delimiters (prefix letters, quotes, $tag$), clean the inside
+        let cs: Vec<char> = src.chars().collect();
+        let open_len = cs.iter().position(|c| matches!(c, '\'' | '"' | '`' | '[' | '$')).map(|p| {
+            if cs[p] == '$' { cs.iter().skip(p + 1).position(|c| *c == '$').map(|q| p + q + 2).unwrap_or(p + 1) }
+            else if p + 2 < cs.len() && cs[p + 1] == cs[p] && cs[p + 2] == cs[p] { p + 3 } else { p + 1 }
+        })?;
+        let close_len = if cs[open_len - 1] == '$' { open_len } else if open_len >= 3 && cs[open_len - 1] == cs[open_len - 2] { 3 } else { 1 };
+        if open_len + close_len > cs.len() {
+            out.push_str(&src);
+            continue;
+        }
+        let inner: String = cs[open_len..cs.len() - close_len].iter()
+            .map(|c| if matches!(c, '\'' | '"' | '`' | '\\' | '$' | '[' | ']') || c.is_control() { changed = true; '_' } else { *c }).collect();
+        out.extend(cs[..open_len].iter());
+        out.push_str(&inner);
+        out.extend(cs[cs.len() - close_len..].iter());
+    }
+    if changed { Some(out) } else { None }
+}
+
+fn neutral(d: &dyn Dialect, sql: &str, unescape: bool, trailing: bool) -> Value {
+    match neutralise(d, sql, unescape) {
+        None => json!({"status": "unchanged"}),
+        Some(n) => {
+            let rt = roundtrip(d, &n, unescape, trailing);
+            let ct = content(d, &n, unescape, trailing);
+            json!({"status": "neutralised", "sql": n, "roundtrip": rt["status"], "content": ct["status"]})
+        }
+    }
+}
+
 // ------------------------------------------------------------------ splice mutation
 
 fn splice(d: &dyn Dialect, c: &Value) -> Value {
@@ -429,21 +485,41 @@ fn splice(d: &dyn Dialect, c: &Value) -> Value {
     let sites: Vec<usize> = toks.iter().enumerate()
         .filter(|(i, t)| wanted(&t.token) && offs[*i] != usize::MAX && offs[*i + 1] != usize::MAX && offs[*i] < offs[*i + 1])
         .map(|(i, _)| i).collect();
-    if sites.is_empty() {
-        return json!({"status": "no-site"});
-    }
     let mut rng = Rng::new(seed);
-    let i = sites[rng.below(sites.len() as u64) as usize];
     let chars: Vec<char> = sql.chars().collect();
-    let mut m: String = chars[..offs[i]].iter().collect();
-    if paren {
-        m.push('(');
-    }
-    m.push_str(expr);
-    if paren {
-        m.push(')');
-    }
-    m.extend(chars[offs[i + 1]..].iter());
+    let insert = c["insert"].as_bool().unwrap_or(false);
+    let (i, m) = if insert {
+        // insertion mode: the fragment is ADDED (blank-separated) after a random non-whitespace token;
+        // whatever the parser then accepts must keep the fragment's content
+        let ends: Vec<usize> = toks.iter().enumerate()
+            .filter(|(i, t)| !matches!(t.token, Token::Whitespace(_) | Token::EOF) && offs[*i + 1] != usize::MAX && offs[*i + 1] <= chars.len())
+            .map(|(i, _)| i).collect();
+        if ends.is_empty() {
+            return json!({"status": "no-site"});
+        }
+        let i = ends[rng.below(ends.len() as u64) as usize];
+        let mut m: String = chars[..offs[i + 1]].iter().collect();
+        m.push(' ');
+        m.push_str(expr);
+        m.push(' ');
+        m.extend(chars[offs[i + 1]..].iter());
+        (i, m)
+    } else {
+        if sites.is_empty() {
+            return json!({"status": "no-site"});
+        }
+        let i = sites[rng.below(sites.len() as u64) as usize];
+        let mut m: String = chars[..offs[i]].iter().collect();
+        if paren {
+            m.push('(');
+        }
+        m.push_str(expr);
+        if paren {
+            m.push(')');
+        }
+        m.extend(chars[offs[i + 1]..].iter());
+        (i, m)
+    };
     match parse_caught(d, &m, unescape, trailing) {
         Err(e) => json!({"status": "panic", "mutated": m, "detail": format!("parse panicked: {e}")}),
         Ok(Err(_)) => json!({"status": "rejected", "site": toks[i].token.to_string()}),
@@ -471,6 +547,7 @@ fn main() {
                 "roundtrip" => roundtrip(&*d, sql, unescape, trailing),
                 "content" => content(&*d, sql, unescape, trailing),
                 "splice" => splice(&*d, c),
+                "neutral" => neutral(&*d, sql, unescape, trailing),
                 _ => json!({"status": "bad-mode"}),
             }
         }));
